@@ -51,6 +51,17 @@ pub fn run(o: &Opts) {
       }
       faulty.push(files[i].0.clone());
     }
+    // a large but valid file: more than 3 MB in few lines is NOT skipped (only size AND line count together are)
+    if t % 2 == 1 {
+      let i = rng.below(files.len());
+      if !faulty.contains(&files[i].0) {
+        let filler = "x".repeat(3_100_000);
+        let mut b = if lang == SupportLang::Python { format!("# {filler}\n") } else { format!("/* {filler} */\n") }.into_bytes();
+        b.extend_from_slice(&files[i].1);
+        files[i].1 = b;
+        out.count("tree:with-large-valid-file");
+      }
+    }
     for (rel, bytes) in &files {
       let p = dir.join(rel);
       std::fs::create_dir_all(p.parent().unwrap()).unwrap();
